@@ -3,6 +3,7 @@ import OdlModel.Model.ResizeBase
 import OdlModel.Gen.PadSlices
 import OdlModel.Model.Resize
 import OdlModel.Model.ResizeRef
+import OdlModel.Model.ResizeOperator
 open OdlModel OdlModel.Resize
 
 def parseMode : String → Option Mode
@@ -228,6 +229,92 @@ def doOffSp (l : Line) : Option String := do
   | .error .notContained => some "err:not-contained"
   | .error .shiftedUnchanged => some "err:shifted-unchanged"
 
+/-! ### round 4: `ResizingOperator.inverse`, `.derivative`, `.adjoint` through `ROp` -/
+
+/-- common part: `mode= shape=<domain shape> newshape=<range shape> off= c=` -/
+def parseROp (l : Line) : Option (ROp Rat) := do
+  let mode ← l.get? "mode" >>= parseMode
+  let sIn ← l.nats? "shape"
+  let sOut ← l.nats? "newshape"
+  let offs ← l.nats? "off"
+  let c ← l.rat? "c"
+  if sIn.length ≠ sOut.length || sIn.length ≠ offs.length then none
+  some ⟨mode, c, sIn, sOut, offs⟩
+
+def boxData (shape : List Nat) (data : List Rat) : Option (List Nat → Rat) :=
+  if data.length ≠ shape.foldl (· * ·) 1 then none
+  else
+    let arr := data.toArray
+    some (fun idx => arr.getD (flatIdx shape idx) 0)
+
+def showResult (shape : List Nat) : Except Err (List Nat → Rat) → String
+  | .error e => showErr e
+  | .ok R => s!"ok r={showRatList ((allIdx shape).map R)}"
+
+/-- `opinv … data=<element of the RANGE>`: `op.inverse(y)` = `ROp.inverse` then `ROp.call`. -/
+def doOpInv (l : Line) : Option String := do
+  let op ← parseROp l
+  let Y ← l.rats? "data" >>= boxData op.sOut
+  let inv := op.inverse
+  some (showResult inv.sOut (inv.call Y))
+
+/-- `opinv2 … data=<element of the DOMAIN>`: `op.inverse(op(x))` (both calls in the model). -/
+def doOpInv2 (l : Line) : Option String := do
+  let op ← parseROp l
+  let X ← l.rats? "data" >>= boxData op.sIn
+  match op.call X with
+  | .error e => some (showErr e)
+  | .ok R =>
+    -- tabulate between the two calls (plumbing, values are the model's)
+    let arr := tabulate op.sOut R
+    let R' : List Nat → Rat := fun idx => arr.getD (flatIdx op.sOut idx) 0
+    some (showResult op.sIn (op.inverse.call R'))
+
+/-- `opderiv … data=<element of the DOMAIN>`: `op.derivative(·)(x)`; `same=1` iff the derivative
+is the operator itself, `c` its `pad_const`, `lin` its linearity flag. -/
+def doOpDeriv (l : Line) : Option String := do
+  let op ← parseROp l
+  let X ← l.rats? "data" >>= boxData op.sIn
+  let d := op.derivative
+  let same := if d = op then "1" else "0"
+  let lin := if d.isLinear then "1" else "0"
+  let oplin := if op.isLinear then "1" else "0"
+  match d.call X with
+  | .error e => some s!"{showErr e} same={same} c={showRat d.c} lin={lin} oplin={oplin}"
+  | .ok R =>
+    some s!"ok same={same} c={showRat d.c} lin={lin} oplin={oplin} r={showRatList ((allIdx d.sOut).map R)}"
+
+/-- `opadjraw … data=<element of the RANGE>`: `op.adjoint(y)` without weights
+(`ROp.adjointCall`); `not-implemented` for a non-linear operator. -/
+def doOpAdjRaw (l : Line) : Option String := do
+  let op ← parseROp l
+  let Y ← l.rats? "data" >>= boxData op.sOut
+  match op.adjointCall Y with
+  | none => some "not-implemented"
+  | some r => some (showResult op.sIn r)
+
+def mkAxes (lo hi : List Rat) (n bl br : List Nat) : Option (List (Axis Rat)) :=
+  if lo.length ≠ hi.length || lo.length ≠ n.length || lo.length ≠ bl.length ||
+      lo.length ≠ br.length then none
+  else if n.any (· = 0) then none
+  else some ((List.range lo.length).map fun k =>
+    ⟨lo.getD k 0, hi.getD k 0, n.getD k 1, bl.getD k 0 ≠ 0, br.getD k 0 ≠ 0⟩)
+
+/-- `invoff lo= hi= n= bl= br= rlo= rhi= rn= rbl= rbr=` (lists over the axes): the offsets the
+constructor called by `inverse` computes, `_offset_from_spaces(range, domain)`. -/
+def doInvOff (l : Line) : Option String := do
+  let doms ← mkAxes (← l.rats? "lo") (← l.rats? "hi") (← l.nats? "n") (← l.nats? "bl")
+    (← l.nats? "br")
+  let rans ← mkAxes (← l.rats? "rlo") (← l.rats? "rhi") (← l.nats? "rn") (← l.nats? "rbl")
+    (← l.nats? "rbr")
+  if doms.length ≠ rans.length then none
+  if rans.any (fun a => a.cell = 0) then none
+  match inverseOffsets doms rans with
+  | .ok ks => some s!"ok off={",".intercalate (ks.map toString)}"
+  | .error .notMultiple => some "err:shift-not-multiple"
+  | .error .notContained => some "err:not-contained"
+  | .error .shiftedUnchanged => some "err:shifted-unchanged"
+
 def handle (l : Line) : Option String :=
   match l.op with
   | "resize" => doResize l
@@ -238,6 +325,11 @@ def handle (l : Line) : Option String :=
   | "opadj" => doOpAdj l
   | "opadjnd" => doOpAdjND l
   | "offsp" => doOffSp l
+  | "opinv" => doOpInv l
+  | "opinv2" => doOpInv2 l
+  | "opderiv" => doOpDeriv l
+  | "opadjraw" => doOpAdjRaw l
+  | "invoff" => doInvOff l
   | _ => none
 
 def main : IO Unit := driverLoop handle
